@@ -117,6 +117,7 @@ inline std::vector<long> blockSizesFor(const long nLeavesOccupied, const bool al
     else {
         for(long b : {1L,2L,3L,7L,8L,9L,nLeavesOccupied-1,nLeavesOccupied,nLeavesOccupied+1,10000000L}) if(std::find(r.begin(), r.end(), b) == r.end()) r.push_back(b);
     }
+    r.push_back(-1);      // automatic block size (TbfBlockSizeFinder)
     return r;
 }
 
